@@ -102,6 +102,7 @@ type Frame struct {
 	defers   []*ssa.Defer
 	loopOrd  map[*ssa.BasicBlock]int
 	storeRoot ssa.Value
+	storeRootExtra ssa.Value // a second root of the same write (append: the call itself, for its fresh array)
 	parent    *Frame
 	locals    []localAlloc
 	pendingCall []string
@@ -167,6 +168,9 @@ func (fr *Frame) heapSet(name, sort, term string) {
 				fr.x.loopRoots[l] = map[string][]ssa.Value{}
 			}
 			fr.x.loopRoots[l][name] = append(fr.x.loopRoots[l][name], root)
+			if fr.storeRootExtra != nil && l.Parent() == fr.fn {
+				fr.x.loopRoots[l][name] = append(fr.x.loopRoots[l][name], fr.storeRootExtra)
+			}
 		}
 	}
 }
